@@ -20,7 +20,7 @@ import itertools
 import math
 from decimal import Decimal
 from fractions import Fraction
-from typing import Any, NamedTuple, Optional
+from typing import Any, List, NamedTuple, Optional, TypedDict, Unpack
 
 from adaptix import DebugTrail, Retort, name_mapping
 
@@ -76,8 +76,62 @@ D = [
     ("SE.A", SE.A), ("FL(0)", FL(0)), ("SINGLE", SINGLE), ("Ellipsis", ...), ("NotImplemented", NotImplemented),
     ("10**30", 10**30), ("(True, 1, 1.0)", (True, 1, 1.0)), ("int-class", int), ("len-builtin", len),
 ]
+class Pt(NamedTuple):
+    x: int
+    y: int
+
+
+class TupSub(tuple):
+    pass
+
+
+class FrozenSub(frozenset):
+    pass
+
+
+class IntSub(int):
+    pass
+
+
+class FloatSub(float):
+    pass
+
+
+class StrSub(str):
+    pass
+
+
+class BytesSub(bytes):
+    pass
+
+
+class ListSub(list):
+    pass
+
+
+class DictSub(dict):
+    pass
+
+
+class SetSub(set):
+    pass
+
+
+# instances of SUBCLASSES of the renderable builtin types: equal to a literal of the base type, of another class
+D += [
+    ("Pt(0,0)", Pt(0, 0)), ("TupSub((1,))", TupSub((1,))), ("TupSub(())", TupSub(())), ("FrozenSub({1})", FrozenSub({1})),
+    ("IntSub(1)", IntSub(1)), ("FloatSub(1.5)", FloatSub(1.5)), ("StrSub('x')", StrSub("x")), ("BytesSub(b'x')", BytesSub(b"x")),
+    ("(Pt(0,0),)", (Pt(0, 0),)), ("(IntSub(1), 'a')", (IntSub(1), "a")), ("frozenset({Pt(0,0)})", frozenset({Pt(0, 0)})),
+]
+
 D_MUTABLE = [("[]", []), ("{}", {}), ("[1]", [1]), ("{1}", {1}), ("{'k': [1, (2,)]}", {"k": [1, (2,)]}), ("[Decimal(1)]", [Decimal(1)]),
              ("{1: True}", {1: True})]
+D_MUTABLE += [
+    ("OrderedDict()", collections.OrderedDict()), ("OrderedDict(a=1)", collections.OrderedDict(a=1)), ("Counter()", collections.Counter()),
+    ("Counter(a=1)", collections.Counter(a=1)), ("defaultdict(list)", collections.defaultdict(list)), ("ListSub([1])", ListSub([1])),
+    ("DictSub()", DictSub()), ("SetSub({1})", SetSub({1})), ("deque([1])", collections.deque([1])), ("[Pt(0,0)]", [Pt(0, 0)]),
+    ("{'k': OrderedDict()}", {"k": collections.OrderedDict()}),
+]
 D_BY_NAME = dict(D + D_MUTABLE)
 
 LOG = []
@@ -538,11 +592,99 @@ def leg_d(shard, report):
 
 
 # ------------------------------------------------------------------------------------------------------------
+# leg R: loaders that are re-entered while they run (self-referential models) and have fields that are simply NOT PASSED when
+# absent (non-required TypedDict keys, **kwargs: Unpack[TypedDict]): per-call state of the generated loader must be per call
+
+class RNode(TypedDict, total=False):
+    value: int
+    label: str
+    child: "RNode"
+    kids: List["RNode"]
+
+
+class ROpts(TypedDict, total=False):
+    color: str
+    weight: int
+
+
+class RTree:
+    def __init__(self, name: str, children: List["RTree"] = (), **opts: Unpack[ROpts]):
+        LOG.append((name, dict(opts)))
+        self.name = name
+        self.children = children
+        self.opts = opts
+
+
+_R_SUBSETS = [(), ("value",), ("label",), ("value", "label")]
+
+
+def _rnode_inputs():
+    """every chain of depth <= 3 and every two-level tree with two kids, each node holding every subset of {value, label}"""
+    def node(subset, n):
+        return {k: (n if k == "value" else f"n{n}") for k in subset}
+    for depth in (1, 2, 3):
+        for subsets in itertools.product(_R_SUBSETS, repeat=depth):
+            root = None
+            for n, sub in reversed(list(enumerate(subsets))):
+                cur = node(sub, n)
+                if root is not None:
+                    cur["child"] = root
+                root = cur
+            yield root
+    for s0, s1, s2, s3 in itertools.product(_R_SUBSETS, repeat=4):
+        yield {**node(s0, 0), "kids": [{**node(s1, 1), "kids": [node(s3, 3)]}, node(s2, 2)]}
+
+
+def _rtree_inputs():
+    opts = [{}, {"color": "red"}, {"weight": 5}, {"color": "c", "weight": 1}]
+    for o0, o1, o2, o3 in itertools.product(opts, repeat=4):
+        yield {"name": "root", **o0, "children": [{"name": "mid", **o1, "children": [{"name": "leaf1", **o2}, {"name": "leaf2", **o3}]}]}
+
+
+def _rtree_calls(d, out):
+    for c in d.get("children", ()):
+        _rtree_calls(c, out)
+    out.append((d["name"], {k: v for k, v in d.items() if k not in ("name", "children")}))
+    return out
+
+
+def leg_r(items, report):
+    import copy
+    lds_node, lds_tree = loaders_for(RNode), loaders_for(RTree)
+    for mode in MODES:
+        for leg, lds, gen in (("RNode", lds_node, _rnode_inputs), ("RTree", lds_tree, _rtree_inputs)):
+            ld = lds[mode]
+            if isinstance(ld, Exception):
+                report.violation({"check": "C08.reentrant", "problem": "creation_failed", "model": leg},
+                                 f"{leg}: loader creation failed {type(ld).__name__}: {str(ld.__cause__ or ld)[:150]}", {"leg": "R"})
+                continue
+            for data in gen():
+                case = {"leg": "R", "model": leg, "input": data, "mode": mode_name(mode)}
+                report.case(("R", leg, repr(data), mode), nontrivial=True, sample=case)
+                del LOG[:]
+                try:
+                    obj = ld(copy.deepcopy(data))
+                except Exception as e:  # noqa: BLE001
+                    report.violation({"check": "C08.reentrant", "problem": "load_failed", "model": leg, "exc": type(e).__name__},
+                                     f"{leg} <- {data} [{mode_name(mode)}]: {type(e).__name__}: {str(e)[:120]}", case)
+                    continue
+                report.outcome("reentrant_load_checked")
+                if leg == "RNode":
+                    if obj != data:
+                        report.violation({"check": "C08.reentrant", "problem": "absent_key_filled", "model": leg},
+                                         f"RNode (recursive TypedDict, total=False) <- {data} [{mode_name(mode)}]: loaded as {obj}", case)
+                else:
+                    want = _rtree_calls(data, [])
+                    if list(LOG) != want:
+                        report.violation({"check": "C08.reentrant", "problem": "constructor_arguments", "model": leg},
+                                         f"RTree(name, children, **opts: Unpack[ROpts]) <- {data} [{mode_name(mode)}]: constructor calls "
+                                         f"{list(LOG)}, the fields present in the input give {want}", case)
+
 
 def shard_fn(args):
     leg, items = args
     report = Report()
-    {"A": leg_a, "B": leg_b, "C": leg_c, "D": leg_d}[leg](items, report)
+    {"A": leg_a, "B": leg_b, "C": leg_c, "D": leg_d, "R": leg_r}[leg](items, report)
     return report
 
 
@@ -556,6 +698,7 @@ def run(tier):
     c_items = [(k, f) for k in ("dataclass", "attrs", "pydantic") for f, _ in FACTORIES]
     shards += [("C", c_items[i::6]) for i in range(6)]
     shards += [("D", [d]) for d, _, _ in attrs_layouts() + other_layouts()]
+    shards += [("R", [None])]
     report.count("signatures", len(sigs))
     parallel.run_shards(shard_fn, shards, report=report)
     return report
@@ -581,6 +724,8 @@ def replay(case):
         leg_b([tuple(tuple(p) for p in case["signature"])], report)
     elif leg == "C":
         leg_c([(case["kind"], case["factory"])], report)
+    elif leg == "R":
+        leg_r([None], report)
     else:
         leg_d([case["layout"]], report)
     for v in report.violations.values():
